@@ -91,33 +91,6 @@ Proof.
   rewrite firstn_length, skipn_length. lia.
 Qed.
 
-(* ---- hex literals (used only by the case files written by the harness) ---- *)
-Definition hexval (c : ascii) : N :=
-  let n := N_of_ascii c in
-  if (48 <=? n)%N && (n <=? 57)%N then n - 48
-  else if (97 <=? n)%N && (n <=? 102)%N then n - 87
-  else if (65 <=? n)%N && (n <=? 70)%N then n - 55
-  else 0.
-
-Fixpoint unhex (s : string) : bytes :=
-  match s with
-  | String a (String b rest) => n2b (hexval a * 16 + hexval b) :: unhex rest
-  | _ => []
-  end.
-
-(* byte-DSL: literal hex | n copies of a byte | concatenation *)
-Inductive bdsl :=
-| BLit (s : string)
-| BRep (b : N) (n : N)
-| BCat (l : list bdsl).
-
-Fixpoint bexpand (d : bdsl) : bytes :=
-  match d with
-  | BLit s => unhex s
-  | BRep b n => repeat (n2b b) (N.to_nat n)
-  | BCat l => flat_map bexpand l
-  end.
-
 (* cheap order-sensitive checksum for comparing large outputs without printing them:
    (length, sum of (i+1)*b_i mod p, sum b_i)  with p = 2^61 - 1 *)
 Definition cks_p : N := 2305843009213693951.
